@@ -4,11 +4,14 @@ CONSTANTS MultipliedEndForNominal <- Off
           FirstAfterIgnoresEnd <- Off
           MaxTake = 6
           ShiftMovesStoredPoints <- Off
-          WinSpecs <- NoWins
+          WinSpecs <- LateWin
           Shifts <- NoShifts
-          Intervals <- AllIv
-          Fmts <- F134
-          Ns <- NsAll
-INVARIANT EmitGen
-CONSTRAINT OnlyInit
+          Intervals <- ExactOnly
+          Fmts <- F13
+          Ns <- N3
+INVARIANT Increasing
+INVARIANT Bounded
+INVARIANT WindowSound
+INVARIANT WindowPrefix
+INVARIANT WindowFilter
 CHECK_DEADLOCK FALSE
